@@ -215,7 +215,7 @@ theorem cellPut_lreach2 {c c' : Cell} {a0 : App} {aid : Nat} {b : Bool} {after :
   split at h
   · simp only [pure_ok, Prod.mk.injEq] at h
     obtain ⟨rfl, _⟩ := h
-    exact LReach.single (.tree (search_skel _ _ _)) ⟨trivial, trivial⟩
+    exact LReach.single (.tree (search_skel _ _ _) (search_curOk _ _ _)) ⟨trivial, trivial⟩
   · rename_i sid hfound
     simp only [bind_ok] at h
     obtain ⟨⟨c2, rc⟩, hput, h⟩ := h
@@ -225,7 +225,7 @@ theorem cellPut_lreach2 {c c' : Cell} {a0 : App} {aid : Nat} {b : Bool} {after :
       obtain ⟨h1, _⟩ := h
       subst h1
       obtain ⟨s, _, hs, hup, _⟩ := search_found (c.putCtx a) c.tree [] sid hfound
-      exact (LReach.single (.tree (search_skel _ _ _)) ⟨trivial, trivial⟩).step (.put hput)
+      exact (LReach.single (.tree (search_skel _ _ _) (search_curOk _ _ _)) ⟨trivial, trivial⟩).step (.put hput)
         ⟨⟨hid.symm, hbl, rfl, fun _ => ⟨s, hs, hup⟩, (by intro e; cases e)⟩, trivial⟩
 
 theorem cellPut_lreach {c c' : Cell} {a0 : App} {aid : Nat} {b : Bool} {after : List Nat}
